@@ -157,6 +157,9 @@ def windowFor (align : Bool) (period : Int) (fresh : Bool) (obs : List String) (
               | some ms => ms / 1000
               | none => 0
             if cands.contains seen then some (.inl seen)
+            else if (cntTtl cntTok).isNone then
+              -- no counter under the limiter's own key: not a question of alignment (correspondence broken)
+              some (.inr s!"no counter with a TTL under the limiter's key after the take that should have created it ({cntTok})")
             else some (.inr s!"window {seen}s is not period - (unix % period) for unix in [{u0},{u1}] (period={period})")
 
 def runPeriod (r : Report) (s : Section) : Report := Id.run do
